@@ -204,25 +204,33 @@ func (g *gen) data() []byte {
 
 // prefixes that Sum accepts in this process
 func (g *gen) goodPrefix() cid.Prefix {
-	switch g.intn(12) {
+	// short CIDs (identity, truncated digests) are preferred: coqc's cost is per byte written
+	switch g.intn(24) {
 	case 0, 1:
 		return cid.Prefix{Version: 0, Codec: cid.DagProtobuf, MhType: mh.SHA2_256, MhLength: 32}
 	case 2:
 		return cid.Prefix{Version: 1, Codec: cid.DagProtobuf, MhType: mh.SHA2_256, MhLength: 32} // v1 alias of v0
-	case 3, 4:
+	case 3:
 		return cid.Prefix{Version: 1, Codec: cid.Raw, MhType: mh.SHA2_256, MhLength: 32}
-	case 5, 6:
+	case 4, 5, 6, 7, 8, 9:
 		return cid.Prefix{Version: 1, Codec: cid.Raw, MhType: mh.IDENTITY, MhLength: -1}
-	case 7:
-		return cid.Prefix{Version: 1, Codec: cid.Raw, MhType: mh.SHA2_256, MhLength: 1 + g.intn(31)} // truncated digest
-	case 8:
-		return cid.Prefix{Version: 1, Codec: cid.DagCBOR, MhType: mh.SHA2_512, MhLength: 64}
-	case 9:
-		return cid.Prefix{Version: 1, Codec: 0x0129, MhType: mh.SHA1, MhLength: 20} // two-byte codec varint
-	case 10:
-		return cid.Prefix{Version: 1, Codec: cid.Raw, MhType: mh.DBL_SHA2_256, MhLength: 32}
+	case 10, 11, 12, 13, 14, 15:
+		return cid.Prefix{Version: 1, Codec: cid.Raw, MhType: mh.SHA2_256, MhLength: 1 + g.intn(4)} // truncated digest
+	case 16:
+		return cid.Prefix{Version: 1, Codec: cid.DagCBOR, MhType: mh.SHA2_256, MhLength: []int{20, 31}[g.intn(2)]}
+	case 17:
+		if g.intn(4) == 0 {
+			return cid.Prefix{Version: 1, Codec: cid.DagCBOR, MhType: mh.SHA2_512, MhLength: 64}
+		}
+		return cid.Prefix{Version: 1, Codec: cid.DagCBOR, MhType: mh.SHA2_512, MhLength: 3}
+	case 18, 19:
+		return cid.Prefix{Version: 1, Codec: 0x0129, MhType: mh.SHA1, MhLength: 2 + g.intn(2)} // two-byte codec varint
+	case 20:
+		return cid.Prefix{Version: 1, Codec: cid.Raw, MhType: mh.DBL_SHA2_256, MhLength: 5}
+	case 21:
+		return cid.Prefix{Version: 1, Codec: 0x300000, MhType: mh.IDENTITY, MhLength: -1} // four-byte codec varint
 	default:
-		return cid.Prefix{Version: 1, Codec: cid.Raw, MhType: mh.SHA2_256, MhLength: 32}
+		return cid.Prefix{Version: 1, Codec: cid.DagProtobuf, MhType: mh.SHA2_256, MhLength: 2}
 	}
 }
 
